@@ -218,6 +218,8 @@ type val struct {
 	untyped  bool // spec literal: adopts the width of the other operand
 	closure  *closureInfo
 	rowSort  string // kOpaque carrying a heap row (pure-call abstraction of a pointee object)
+	arrRow   string // kArr loaded from the heap: the bound row term and the offset term (provenance for frame facts)
+	arrOff   string
 }
 
 func bv(w int, n uint64) string {
